@@ -130,7 +130,7 @@ def gen(rng, tier):
         seq = 0
         for _f in range(rng.randrange(1, 4)):
             pk = []
-            for _p in range(rng.randrange(1, 6)):
+            for _p in range(rng.choice([0, 1, 2, 3, 4, 5]) if _f < 2 else rng.randrange(1, 6)):      # also files with no packet at all
                 apid = rng.choice(list(layouts))
                 pk.append(mk_packet(rng, apid, layouts[apid], seq).hex())
                 seq += 1
